@@ -208,8 +208,13 @@ fn check_c07(cfg: &ChainCfg, h: &crate::chain::History, out: &mut RunOutcome) {
             break;
         }
         let (Some(acc), Some(acc_sym), Some(bar)) = (d.f64("mean_tree_accept"), d.f64("mean_tree_accept_sym"), d.f64("step_size_bar")) else { return };
-        if !acc.is_finite() || !acc_sym.is_finite() {
-            out.probe("nonfinite_acceptance_statistic", 1);
+        if !(acc >= 0.0 && acc <= 1.0 + 1e-12) || !(acc_sym >= 0.0 && acc_sym <= 1.0 + 1e-12) {
+            // the statistic is a mean of acceptance probabilities: with at least one leapfrog it is a number in [0, 1]
+            if d.u64("n_steps").unwrap_or(0) >= 1 {
+                out.violate(format!("C07/acceptance_statistic_not_a_probability/{pname}"), format!("draw {n}: mean_tree_accept = {acc:e}, mean_tree_accept_sym = {acc_sym:e} after {} leapfrog steps (diverging: {})", d.u64("n_steps").unwrap_or(0), d.progress.diverging));
+            } else {
+                out.probe("nonfinite_acceptance_statistic", 1);
+            }
             return;
         }
         // which statistic feeds the estimator at this draw
